@@ -518,7 +518,10 @@ def d4_deltat(repo, rep, tier):
         if Yj <= -500:
             continue
         nj += 1
-        jump = abs(val(b, Yj, Yj) - val(a, Yj, Yj))
+        # both one-sided limits in the code's own variables: the left segment is entered with the integer year Yj - 1
+        # (month running up to 12.5), the right one with year Yj; and the observable step December(Yj - 1) -> January(Yj)
+        jump = max(abs(val(b, Yj, Yj) - val(a, Yj - 1, Yj)),
+                   abs(eval_numeric(b[2], {"year": float(Yj), "month": 1.0}) - eval_numeric(a[2], {"year": float(Yj - 1), "month": 12.0})))
         site = "Epoch.Epoch.tt2ut@%d" % Yj
         if jump < 1.0:
             rep.ok("R-POLY", site, "jump %.3f s < 1 s" % jump, obligation=True, sample=(nj <= 2))
